@@ -558,7 +558,7 @@ def C_axis_diag(repo, clause):
                     partial = sorted(ents)
                     why = ("np.diag(cell) is used as the box under a hand-written test that only checks the off-diagonal entries %s: a cell whose OTHER off-diagonal entries are non-zero "
                            "(an arbitrarily oriented cell with an upper triangle) passes the test, and its diagonal is not its lattice" % partial)
-            obs.append(Ob("Caxis", clause, fn, c, ok, why, slot="diag:%s" % re.sub(r"\s+", " ", ast.unparse(fn.stmt_of(c)))[:70], positive=arith or partial is not None))
+            obs.append(Ob("Caxis", clause, fn, c, ok, why, slot="diag:%s" % re.sub(r"\s+", " ", ast.unparse(fn.stmt_of(c)))[:70], positive="robust" if partial is not None else arith))
     floor("Caxis", "np.diag(cell) sites", n, 6)
     # the orthorhombic test itself: all six off-diagonal entries must be examined
     co = repo.fn("Atoms.cell_is_orthorhombic")
